@@ -224,6 +224,23 @@ func (pw *predWorld) genCase() *predCase {
 			pc.Data = mustPack(cpcabi.StakingCpcInfo, "delegationOf", vh.Pick(r, w.Pool), common.BytesToAddress(pw.c.Vals[0].Oper))
 		}
 		pc.Gas = uint64(vh.Pick(r, []int{21_700, 22_500, 30_000, 52_000, 100_000, 400_000}))
+	case k >= 18: // no call data, destination without code: plain accounts, go-ethereum's precompiles, the custom ones
+		pc.Target = "codeless"
+		pc.Feats = []string{"codeless"}
+		switch r.Intn(4) {
+		case 0:
+			pc.To, pc.Desc = addrPtr(vh.Pick(r, w.Pool)), "transfer to a plain account"
+		case 1:
+			pc.To, pc.Desc = addrPtr(common.BytesToAddress([]byte{byte(vh.Pick(r, []int{2, 3, 4}))})), "empty call data to a go-ethereum precompile (sha256 / ripemd160 / identity)"
+		case 2:
+			pc.To, pc.Desc = addrPtr(vh.Pick(r, []common.Address{pw.erc20, pw.bech32, pw.staking})), "empty call data to a custom precompile"
+		default:
+			pc.To, pc.Desc = addrPtr(common.BytesToAddress(r.Bytes(20))), "transfer to a fresh address"
+		}
+		if r.Bool() {
+			pc.Value = big.NewInt(int64(1 + r.Intn(5000)))
+		}
+		pc.Gas = uint64(vh.Pick(r, []int{21_000, 21_010, 21_015, 21_100, 23_400, 25_300, 30_000, 100_000}))
 	default:
 		t := vh.Pick(r, pw.targets)
 		if k < 8 { // a staking puppet that has a validator left for a first delegation
@@ -292,7 +309,7 @@ func (pw *predWorld) genCase() *predCase {
 		}
 	}
 	// keep most limits at or above the intrinsic gas (a limit below it is refused on both sides: trivial)
-	if ig := vh.IntrinsicGas(ethtypes.NewTx(pc.tx(0, pc.Gas))); pc.Gas < ig && !r.Chance(1, 12) {
+	if ig := vh.IntrinsicGas(ethtypes.NewTx(pc.tx(0, pc.Gas))); pc.Gas < ig && !r.Chance(1, 5) {
 		pc.Gas = ig + uint64(vh.Pick(r, []int{0, 1, 50, 700, 2300, 9000}))
 	}
 	return pc
